@@ -37,7 +37,7 @@ def scenario(args):
     k = 0
     for c in calls:
         k += 1
-        if cfg.get("ackpl") and peer == "listening":
+        if cfg.get("ackpl") and peer == "listening" and not c.get("noload"):
             lp.load_ack(bytes([0xAC, k, seed & 0xFF]))
         if c["api"] == "resend":
             ev.append(lp.call("resend", send_only=c.get("send_only", False), fates=c.get("fates")))
@@ -107,9 +107,10 @@ def build_jobs(chk, tx_lite=False, rx_lite=False):
     # ACK payloads x send_only: stale payloads in the PTX's RX FIFO must never be returned as this call's ACK payload
     so_alpha = [dict(api=a, fr=0, send_only=so, fates=list(f)) for a in ("send", "resend") for so in (False, True)
                 for f in ("D", "PP")]
+    so_alpha += [dict(api="send", fr=fr, send_only=False, fates=list(f), noload=True) for fr in (0, 1) for f in ("D", "PPD")]   # empty ACKs
     so_hist = list(itertools.product(so_alpha, repeat=3))
     if quick:
-        so_hist = rng.sample(so_hist, 200)
+        so_hist = rng.sample(so_hist, 300)
     for cs in so_hist:
         add(dict(arc=1, ard=250, ackpl=True), list(cs))
     # (c) seeded large setups
